@@ -144,3 +144,43 @@ Theorem C03_answer_completes_call : forall (s : st) (h : handle) (r : response),
   In (OComplete h (CResp r)) (snd (fst (step s (Back (ser_response r))))).
 Proof. exact answer_completes_call. Qed.
 Print Assumptions C03_answer_completes_call.
+
+(* ---- the HTTP client's single call (Model/HttpBatch.v `http_single`, `http_single_resp`: client.rs `request` after the
+   body passed read_body and was parsed as one Response; `outcome_of r` = SOk result | SCall error object) ---- *)
+From JV Require Import Model.HttpBatch Proofs.HttpBatchFacts.
+From JV Require Model.HttpGate.
+
+(* a reply bearing the call's id yields exactly that reply's result / error object *)
+Theorem C03_http_single_own_id : forall (i : id) (r : response),
+  rs_id r = i -> http_single_resp i r = outcome_of r.
+Proof. exact http_single_own_id. Qed.
+Print Assumptions C03_http_single_own_id.
+
+(* a reply bearing any other id (other number, string where a number was sent or the reverse, null) never yields Ok:
+   a result is refused (NotPendingRequest); an error object is reported as the call's error whatever its id, because the
+   code converts the reply to ResponseSuccess before it compares ids *)
+Theorem C03_http_single_foreign_id : forall (i : id) (r : response),
+  rs_id r <> i ->
+  http_single_resp i r = match rs_payload r with PResult _ => SErr HNotPending | PError e => SCall e end /\
+  forall raw, http_single_resp i r <> SOk raw.
+Proof. exact http_single_foreign_id. Qed.
+Print Assumptions C03_http_single_foreign_id.
+
+(* from the bytes of the HTTP body: Ok exactly for a body that parses to a reply with the call's own id and a result *)
+Theorem C03_http_single_ok : forall (i : id) (body raw : bytes),
+  http_single i body = SOk raw <->
+  exists text single r,
+    HttpGate.read_body [] [HttpGate.FData body] http_max_response = HttpGate.RbOk text single /\
+    parse_response text = Some r /\ rs_id r = i /\ rs_payload r = PResult raw.
+Proof. exact http_single_ok. Qed.
+Print Assumptions C03_http_single_ok.
+
+Example C03_http_single_witness :
+  http_single (IdNum 1) b#"{""jsonrpc"":""2.0"",""id"":1,""result"":""a""}" = SOk b#"""a""" /\
+  http_single (IdNum 1) b#"{""jsonrpc"":""2.0"",""id"":""1"",""result"":""a""}" = SErr HNotPending /\
+  http_single (IdStr b#"1") b#"{""jsonrpc"":""2.0"",""id"":1,""result"":""a""}" = SErr HNotPending /\
+  http_single (IdNum 1) b#"{""jsonrpc"":""2.0"",""id"":null,""result"":""a""}" = SErr HNotPending /\
+  http_single (IdNum 1) b#"{""jsonrpc"":""2.0"",""id"":2,""error"":{""code"":-1,""message"":""x""}}"
+    = SCall {| e_code := (-1)%Z; e_message := b#"x"; e_data := None |} /\
+  http_single (IdNum 1) b#"[1]" = SErr HParse /\ http_single (IdNum 1) b#"1" = SErr HTransport.
+Proof. vm_compute. repeat split. Qed.
